@@ -105,7 +105,16 @@ func VH_C04() {
 	vstub.Assert("c04.unmarshal.eq", xEq_Rec(w1, v))
 	var w2 v1.Rec
 	fr := vstub.NewFragReader(buf)
-	fr.Full = true
+	// the underlying reader may deliver short reads: everything at once, one
+	// byte at a time, or one short read anywhere
+	switch vstub.Choose(0, 2) {
+	case 0:
+		fr.Full = true
+	case 1:
+		fr.OneByte = true
+	default:
+		fr.Budget = 1
+	}
 	err = w2.DecodeBebop(fr)
 	vstub.Assert("c04.decode.err", err == nil)
 	vstub.Assert("c04.decode.eq", xEq_Rec(w2, v))
